@@ -171,7 +171,9 @@ def dataset_cases(draw):
     step = draw(st.sampled_from([1, 1, 2, 0.5, 0.125]))
     spec["time"] = {"name": tname, "dim": tdim, "units": build_units(u),
                     "values": [k * step for k in range(nt)],
-                    "dtype": "f8" if isinstance(step, float) else draw(st.sampled_from(["f8", "i4"]))}
+                    "dtype": "f8" if isinstance(step, float) else draw(st.sampled_from(["f8", "i4"])),
+                    "calendar": draw(st.sampled_from([None, None, "standard", "gregorian",
+                                                      "proleptic_gregorian"]))}
     spec["extra"] = {tdim: nt}
     shapes = specs.grid_shapes(spec)
     n_grid = 1 if conv == "ugrid" else 2
@@ -192,7 +194,8 @@ def dataset_cases(draw):
         variables.append(var)
     spec["vars"] = variables
     spec["mode"] = "decoded"
-    return {"spec": spec, "units": u, "route": draw(st.sampled_from(["ems", "ems", "utils"]))}
+    return {"spec": spec, "units": u, "route": draw(st.sampled_from(["ems", "ems", "utils"])),
+            "scalar_time": draw(st.integers(0, 3)) == 0}
 
 
 def check_dataset(case, ctx):
@@ -202,9 +205,12 @@ def check_dataset(case, ctx):
     with warnings.catch_warnings():
         warnings.simplefilter("ignore")
         ds = specs.build(spec)
+        tname = spec["time"]["name"]
+        if case.get("scalar_time"):
+            # a single time step selected out of the series: the time coordinate is a scalar
+            ds = ds.isel({spec["time"]["dim"]: 0})
         conv = specs.bind_convention(spec, ds)
         before = list(conv.polygons)
-        tname = spec["time"]["name"]
         with specs.scratch_dir() as tmp:
             path = os.path.join(tmp, "saved.nc")
             ctx.at("C17.save")
@@ -260,6 +266,9 @@ def check_dataset(case, ctx):
     ctx.label("conv:" + spec["conv"])
     ctx.label("route:" + case["route"])
     ctx.label("time_dtype:" + spec["time"]["dtype"])
+    ctx.label(f"calendar:{spec['time'].get('calendar')}")
+    if case.get("scalar_time"):
+        ctx.label("scalar_time_coordinate")
     ctx.nontrivial(isinstance(off, int) and (off < 0 or abs(off) < 600 or off % 60 != 0))
 
 
